@@ -90,6 +90,72 @@ def run_pairs(kind, typed, ign, pairs, seed=0, tid=1):
         envctl.rm(root)
 
 
+def _two_functions():
+    """two different functions with the same short name, and a third with its own name"""
+    def mk1(log):
+        def area(x, y=0):
+            log.append('one')
+            return ('one', x, y)
+        return area
+
+    def mk2(log):
+        def area(x, y=0):
+            log.append('two')
+            return ('two', x, y)
+        return area
+    return mk1, mk2
+
+
+def run_names(kind, seed=0, tid=1):
+    """decorators that derive the entry name from the function: different functions never share, the same one does"""
+    import diskcache
+    clock = envctl.Clock().install()
+    root = envctl.scratch('memo')
+    import random as _r
+    real_random = _r.random
+    _r.random = lambda: 0.999999
+    ev = []
+    try:
+        if kind == 'cache':
+            c = diskcache.Cache(os.path.join(root, 'c'))
+            deco = lambda: c.memoize()
+        elif kind == 'fanout':
+            c = diskcache.FanoutCache(os.path.join(root, 'f'), shards=3)
+            deco = lambda: c.memoize()
+        elif kind == 'index':
+            c = diskcache.Index(os.path.join(root, 'i'))
+            deco = lambda: c.memoize()
+        elif kind == 'django':
+            from diskcache.djangocache import DjangoCache
+            c = DjangoCache(os.path.join(root, 'd'), {'SHARDS': 2})
+            deco = lambda: c.memoize()
+        else:
+            c = diskcache.Cache(os.path.join(root, 's'))
+            deco = lambda: diskcache.memoize_stampede(c, 1000)
+        mk1, mk2 = _two_functions()
+        log = []
+        a1, a2 = mk1(log), mk2(log)
+        f1, f2, f1b = deco()(a1), deco()(a2), deco()(a1)
+        for args in ((2,), (2, 3)):
+            del log[:]
+            r1 = f1(*args)
+            r2 = f2(*args)
+            ev.append({'ev': 'names', 'q1': a1.__qualname__, 'q2': a2.__qualname__, 'shared': 0 if log == ['one', 'two'] else 1,
+                       'r2ok': 1 if (r1, r2) == (('one',) + tuple(args) + (0,) * (2 - len(args)), ('two',) + tuple(args) + (0,) * (2 - len(args))) else 0})
+            del log[:]
+            r3 = f1b(*args)
+            ev.append({'ev': 'names', 'q1': a1.__qualname__, 'q2': a1.__qualname__, 'shared': 1 if log == [] else 0, 'r2ok': 1 if r3 == r1 else 0})
+        try:
+            c.close()
+        except Exception:
+            pass
+        return {'id': tid, 'kind': kind, 'ev': ev}
+    finally:
+        _r.random = real_random
+        clock.uninstall()
+        envctl.rm(root)
+
+
 def run_ttl(kind, expire, seed=0, tid=1):
     """expire: None (-1 in the trace), 0, or a positive number of ticks"""
     clock = envctl.Clock().install()
@@ -162,7 +228,19 @@ def run_stampede(seed=0, tid=1):
             rok = 1 if r3 == repr(((1, None), [])) else 0
         except Exception:
             rok = 0
-        ok12 = 1 if r1 == r2 == repr(((1,), [])) else 0
+        # the same with a keyword argument: the early recomputation must compute the same call
+        k1 = f(2, b='a')                          # 1 tick
+        clock.advance(18)
+        _r.random = lambda: 1e-9
+        before = threading.active_count()
+        k2 = f(2, b='a')
+        for _ in range(200):
+            if threading.active_count() <= before:
+                break
+            envctl._real_sleep(0.01)
+        _r.random = lambda: 0.999999
+        k3 = f(2, b='a')                          # served from the entry the early recomputation stored
+        ok12 = 1 if r1 == r2 == repr(((1,), [])) and k1 == k2 == k3 == repr(((2,), [('b', 'a')])) else 0
         c.close()
         return {'id': tid, 'kind': 'stampede', 'ev': [{'ev': 'stamp', 'rok': rok, 'ok12': ok12, 'calls': calls[0]}]}
     finally:
